@@ -592,16 +592,28 @@ func init() {
 		for _, kind := range kinds {
 			vs := spread(verifying[kind], (perKind+1)/2)
 			vs = append(vs, spread(byKind[kind], perKind-len(vs))...)
-			for i, v := range vs {
+			for _, v := range vs {
 				g.gen = "history-" + v.kind
 				g.emit("!history", v.kind, v.hex, v.aux)
-				if i < g.n(3, 20) {
-					for pi, p := range c18Paths[v.kind] {
-						if pi > 0 {
-							g.gen = "history-" + v.kind + "-" + p.name
-							g.emit("!history", v.kind+"/"+p.name, v.hex, v.aux)
-						}
+			}
+			// every alternative parser / constructor path of the kind, on the first few values THAT PATH accepts
+			// (a key-type-specific reader only takes its own key types)
+			all := append(append([]c18Val{}, verifying[kind]...), byKind[kind]...)
+			for pi, p := range c18Paths[kind] {
+				if pi == 0 {
+					continue
+				}
+				n := 0
+				for _, v := range all {
+					if n >= g.n(3, 20) {
+						break
 					}
+					if genBuild(kind+"/"+p.name, unhx(v.hex), atoi(v.aux)) == nil {
+						continue
+					}
+					n++
+					g.gen = "history-" + kind + "-" + p.name
+					g.emit("!history", kind+"/"+p.name, v.hex, v.aux)
 				}
 			}
 		}
